@@ -114,6 +114,8 @@ class Evaluator:
                 import struct as _struct
                 if isinstance(base, _struct.Struct) and e.attr in ("size", "format"):
                     return getattr(base, e.attr)
+                if base is None:
+                    raise Raised("AttributeError", e)       # None.<attr>: what Python does, not an evaluation gap
                 raise Unknown(f"attribute {unparse(e)}")
         if isinstance(e, ast.UnaryOp):
             v = self.ev(e.operand)
